@@ -182,10 +182,12 @@ def rewrite_arm(text, dropped):
     opnames = {}
     datavars = set()
     maxc = [0]
+    unordered = [False]
     text = drop_block_if(text, r'PML_STRING|Data::VERBATIM', dropped,
                          'string-comparison branch (operands are assumed integer-valued)')
 
     def expr(s, count):
+        c0 = count
         while True:
             m = re.search(r'dataTo(Int|Bool)\(\s*evaluateExpr\(\s*\*\s*opIter(\+\+)?\s*\)\s*\)', s)
             if not m:
@@ -206,6 +208,8 @@ def rewrite_arm(text, dropped):
         s = re.sub(r'\bnode->type\b', 'node_type', s)
         s = re.sub(r'\bnode->operands\.size\(\)', '((size_t)nops)', s)
         maxc[0] = max(maxc[0], count)
+        if count - c0 >= 2:
+            unordered[0] = True   # two operand fetches in ONE expression: their order is chosen by the compiler
         return s, count
 
     def walk(stmts, count, ind):
@@ -275,7 +279,7 @@ def rewrite_arm(text, dropped):
         if mm:
             raise rules.ExtractionError('arm not fully rewritten, residue /%s/ in: %s' % (rx, ' '.join(ctext.split())[:200]))
     rules.check_residue(ctext, [], 'evaluateExpr arm')
-    return ctext, maxc[0]
+    return ctext, maxc[0], unordered[0]
 
 
 SIG_D2B = r'\bbool\s+PromelaDataModel::dataToBool\s*\(\s*const\s+Data\s*&\s*(\w+)\s*\)\s*'
@@ -323,12 +327,12 @@ def extract(repo):
             res['not_extracted'].append({'labels': labels, 'reason': 'no operator of the property\'s operator set (leaf / variable access / assignment arm)'})
             continue
         dropped = []
-        ctext, nconsumed = rewrite_arm(text, dropped)
+        ctext, nconsumed, unord = rewrite_arm(text, dropped)
         for l in ops:
             seen.add(l)
             code.append('/* %s:%d  arm %s */\nstatic int arm_%s(int nops, int node_type, int v1, int v2, int k1, int k2) {\n%s\nreturn verif_fallthrough();\n}\n'
                         % (SRC, first + off, '/'.join(labels), l, ctext))
-            res['arms'].append({'token': l, 'line': first + off, 'max_operands_consumed': nconsumed, 'dropped': dropped,
+            res['arms'].append({'token': l, 'line': first + off, 'max_operands_consumed': nconsumed, 'dropped': dropped, 'operand_order_left_to_compiler': unord,
                                 'grammar_arities': ar.get(l, [])})
     for l in OPS:
         if l not in seen:
